@@ -65,9 +65,13 @@ def runs(tier, seed):
 
 def EXTRA_RUNS(tier, seed):
     """C10_fault_free_round_is_accepted is a theorem about the VALIDATION model: its tie to the real validator
-    (hx-val + Validation/Extract.v, honest multi-duty histories and the mutation table) is run here too."""
+    (hx-val + Validation/Extract.v, honest multi-duty histories and the mutation table) is run here too.
+    gate-duties: the real proposer duty handler; the duty store it fills is the one the message validator looks proposer
+    duties up in (a miss is ErrNoDuty, a reject): while a proposer duty runs the store must hold it (monitor lines `c10gate`)."""
     n = "300" if tier == "thorough" else "40"
-    return [("hx-val", "validation", "Validation/Extract.v", "val-hist", ["validate", "-stream", "hist", "-seed", str(seed + 10), "-n", n, "-prop", "C09"]),
+    g = "4000" if tier == "thorough" else "700"
+    return [("hx-duties", "scheduler", "Scheduler/Extract.v", "gate-duties", ["gen", "-seed", str(seed + 30), "-n", g, "-kind", "P"], "c10gate"),
+            ("hx-val", "validation", "Validation/Extract.v", "val-hist", ["validate", "-stream", "hist", "-seed", str(seed + 10), "-n", n, "-prop", "C09"]),
             ("hx-val", "validation", "Validation/Extract.v", "val-table", ["validate", "-stream", "table", "-seed", str(seed + 10), "-prop", "C09"])]
 
 
